@@ -100,12 +100,12 @@ def c01(tier, seed):
 
 def c02(tier, seed):
     t = 'quick' if tier == 'quick' else 'thorough'
-    stages = [disp_stage('c02_' + t)]
+    stages = [disp_stage('c02_' + t), disp_stage('c03')]     # c03: every exception type a method body may raise (each element runs exactly once)
     if tier != 'quick':
         stages += [randomized(x, seed) for x in stages]
     stages.append(twins_stage(t))
     return dict(stages=stages,
-                rule='(plus: look-alike methods on one dispatcher in every call order - each call runs its own method with its own arguments) all single requests and all batches of length 1..2 over 6 element kinds x 8 id typings (48 elements), '
+                rule='(plus: the failure corpus of C03 - methods raising each of 18 exception types / protocol errors, as call, notification and batch element; look-alike methods on one dispatcher in every call order - each call runs its own method with its own arguments) all single requests and all batches of length 1..2 over 6 element kinds x 8 id typings (48 elements), '
                      'length 3%s over reduced alphabets, x max_batch_size at and around the length x 3 dispatcher flavours; '
                      'non-trivial = at least one method executed' % ('' if tier == 'quick' else ' and 4'),
                 assumptions=ASSUME_DISP, exhaustive=True)
@@ -350,7 +350,7 @@ def c20(tier, seed):
                extra_emits=[('MockerMC', 'Mocker_sim_emit.cfg', dict(simulate='num=%d' % (8000 if quick else 120000), depth=9, seed=None))]
                + [('MockerMC', 'Mocker_twins_emit.cfg', {})] + ([] if quick else [('MockerMC', 'Mocker_thorough4_emit.cfg', {})]),
                driver='mocker', trace=('MockerTrace', 'MockerTrace.cfg'),
-               nontrivial=lambda tr: sum(1 for e in tr['ev'] if e['k'] in ('single', 'batch')) >= 2)
+               nontrivial=lambda tr: sum(1 for e in tr['ev'] if e.get('k') in ('single', 'batch')) >= 2)
     return dict(stages=[st],
                 rule='(plus identically configured once-patches, replacement at negative indices, the real httpx backend as patched transport) operation histories over 2 endpoints x 2 methods x {result, error, callback} patches x once on/off x '
                      'replace at index 0/1 x remove (pair / endpoint) x reset x single / batch calls with ids 0, 1, "" and '
